@@ -100,13 +100,25 @@ def enc_ptable(names, ids):
 
 
 # ------------------------------------------------------------------ histories
+_omit = [0]
+
+
+def _omit_default():
+    """alternate between passing inherit=True explicitly and relying on the default (the default is code too)"""
+    _omit[0] += 1
+    return _omit[0] % 2 == 0
+
+
 def run_real(console, ops, rec):
     """execute a history on a real Console; rec() is called after every executed statement"""
     for op in ops:
         kind = op[0]
         if kind == "push":
             try:
-                console.push_theme(op[1], inherit=op[2])
+                if op[2] and _omit_default():
+                    console.push_theme(op[1])
+                else:
+                    console.push_theme(op[1], inherit=op[2])
             finally:
                 rec()
         elif kind == "pop":
@@ -119,7 +131,8 @@ def run_real(console, ops, rec):
             raise UserErr()
         else:
             try:
-                with console.use_theme(op[1], inherit=op[2]):
+                cm = console.use_theme(op[1]) if (op[2] and _omit_default()) else console.use_theme(op[1], inherit=op[2])
+                with cm:
                     rec()
                     run_real(console, op[3], rec)
             finally:
@@ -303,7 +316,11 @@ def check_history(ctx, ids, base_theme, ops, probes, tnames, default_console=Fal
     def rec():
         lk = lookups()
         real_lookups.append(lk)
-        bound = stack.get.__self__
+        bound = getattr(stack.get, "__self__", None)
+        if not stack._entries or not isinstance(bound, dict):
+            wf[0] = False
+            snaps.append("BROKEN")
+            return
         if bound is not stack._entries[-1] or stack._entries[0] is not base_dict:
             wf[0] = False
         snaps.append(
@@ -322,6 +339,8 @@ def check_history(ctx, ids, base_theme, ops, probes, tnames, default_console=Fal
         outcome = "raised:ThemeStackError"
     except IndexError:
         outcome = "raised:IndexError"
+    except Exception as e:  # anything else is an answer to compare, not a harness crash
+        outcome = "raised:Other:" + type(e).__name__
     shown = None
     if sample or ctx.rng.random() < 0.002:
         shown = "history on %s: %s" % ("Console()" if default_console else "Console(theme=BASE)", show_ops(ops, tnames))
@@ -385,7 +404,7 @@ def check_history(ctx, ids, base_theme, ops, probes, tnames, default_console=Fal
     bal = is_balanced(ops)
     if bal is not None:
         ctx.note("balanced_histories")
-        ok = real_lookups[-1] == real_lookups[0] and len(stack._entries) == 1 and outcome == ("normal" if bal else "raised:UserError")
+        ok = len(real_lookups) > 0 and real_lookups[-1] == real_lookups[0] and len(stack._entries) == 1 and outcome == ("normal" if bal else "raised:UserError")
         ctx.check(ok, "balanced history restores", desc, f"after a balanced history lookups/stack depth are not what they were before it (outcome {outcome}, depth {len(stack._entries)})")
     return outcome
 
@@ -403,10 +422,6 @@ SAFE_NAMES = ["a", "warning", "repr.str", "a b", "x-y_z", "b", "rem x", "bar.bac
 NONASCII_SAFE = ["é", "ß", "名前", "a\x0cb"]
 UPPER_NAMES = ["Foo", "REM", "É", "aB", "A"]
 HOSTILE_NAMES = [" a", "a ", "a:b", "a=b", "#a", ";a", "[a]", "", "a\nb", "a\t", "[x", "a\x1f"]
-
-
-def py_isspace_strip_stable(s):
-    return s == s.strip()
 
 
 def name_in_domain(n):
@@ -469,9 +484,9 @@ def check_from_file(ctx, ids, text, inherit, defaults_enc, defaults_names, reada
                 p = os.path.join(d, "t.cfg")
                 with open(p, "wt", newline="\n") as f:
                     f.write(text)
-                t = Theme.read(p, inherit=inherit)
+                t = Theme.read(p) if (inherit and _omit_default()) else Theme.read(p, inherit=inherit)
         else:
-            t = Theme.from_file(io.StringIO(text), inherit=inherit)
+            t = Theme.from_file(io.StringIO(text)) if (inherit and _omit_default()) else Theme.from_file(io.StringIO(text), inherit=inherit)
         ans = None
     except configparser.Error as e:
         t, ans = None, "err:" + type(e).__name__
@@ -516,8 +531,8 @@ def run(ctx):
     defaults_names = list(DEFAULT_STYLES)
     dnames0 = Names(defaults_names)
     defaults_enc = enc_dict_in(dnames0, ids, DEFAULT_STYLES)
-    name_pool = ["a", "b", "bold", "repr.str", "none", "Foo", "", "a b", "é"]
-    defs_ok = ["red", "bold", "bold red on blue", "not bold", "none", "", "link http://x", "b i", "#ff0000", "  dim  ", "on red", "RED"]
+    name_pool = ["a", "b", "bold", "repr.str", "none", "Foo", "", "a b", "é", " a", "a\t", "A"]
+    defs_ok = ["red", "bold", "bold red on blue", "not bold", "none", "", "link http://x", "b i", "#ff0000", "  dim  ", "on red", "RED", "link http://X/Y bold", "BOLD link Z"]
     defs_bad = ["zzz", "not", "not zzz", "on", "on zzz", "link", "bold zzz", "rgb(1,,2)", "color(999)", "#12"]
     n_new = 400 if ctx.quick else 6000
     for i in range(n_new):
@@ -539,7 +554,12 @@ def run(ctx):
                 parts.append("%d=%s" % (names.add(k), "#%d" % ids.sid(v) if isinstance(v, Style) else "~%d" % names.add(v)))
             items_enc = ",".join(parts)
         try:
-            t = Theme() if (styles is None and inherit) else Theme(styles, inherit=inherit)
+            if styles is None and inherit:
+                t = Theme()
+            elif inherit and i % 2:
+                t = Theme(styles)
+            else:
+                t = Theme(styles, inherit=inherit)
             ans = "ok:" + enc_dict_out(names, ids, t.styles)
         except errors.StyleSyntaxError:
             t, ans = None, "err:StyleSyntaxError"
@@ -563,12 +583,13 @@ def run(ctx):
     ctx.flush()
 
     # ================================================================ 2. histories
-    BASE = Theme({"a": S[0], "b": S[1], "bold": S[2]}, inherit=False)
-    TA = Theme({"a": S[3], "c": S[4]}, inherit=False)
+    BASE = Theme({"a": S[0], "b": S[1], "bold": S[2], "Foo": S[8]}, inherit=False)
+    TA = Theme({"a": S[3], "c": S[4], "foo": S[7]}, inherit=False)
     TB = Theme({"b": S[5], "c": S[6], "italic": S[0]}, inherit=False)
     tnames = {id(BASE): "BASE", id(TA): "A", id(TB): "B"}
     probes = [("a",), ("b",), ("c",), ("bold",), ("italic",), ("zzz",), ("red",), ("",), ("not",),
-              ("zzz", "a"), ("zzz", "c"), ("zzz", "qqq"), ("zzz", S[7]), ("zzz", ""), (S[7],), ("a", "zzz"), ("c", "b"), ("rgb(1,,2)",)]
+              ("zzz", "a"), ("zzz", "c"), ("zzz", "qqq"), ("zzz", S[7]), ("zzz", ""), (S[7],), ("a", "zzz"), ("c", "b"), ("rgb(1,,2)",),
+              (" a",), ("a ",), ("A",), ("Foo",), ("foo",), ("FOO",), ("zzz", " a"), ("BOLD",), ("c ", "zzz")]
     leaves = [("push", TA, True), ("push", TB, False), ("pop",), ("raise",)]
     blocks = [("use", TA, False), ("use", TB, True)]
     nmax = 3 if ctx.quick else 4
@@ -581,7 +602,7 @@ def run(ctx):
     ctx.flush()
 
     # random, deeper, with random themes; a share on the default console
-    pool_names = ["a", "b", "c", "bold", "italic", "repr.str", "rule.line", "zzz", "Foo", "red"]
+    pool_names = ["a", "b", "c", "bold", "italic", "repr.str", "rule.line", "zzz", "Foo", "red", "foo", " a"]
 
     def rand_theme(default_console):
         if default_console and rng.random() < 0.2:
@@ -648,6 +669,8 @@ def run(ctx):
                 ok = False
             except ThemeStackError:
                 ok = True
+            except Exception:
+                ok = False
             ctx.check(ok and len(c._theme_stack._entries) == 1, "pop_theme on base", repr(theme), "popping the base theme did not raise ThemeStackError or changed the stack")
         st = ThemeStack(BASE)
         try:
@@ -655,7 +678,46 @@ def run(ctx):
             ok = False
         except ThemeStackError:
             ok = True
-        ctx.check(ok and st.get("a") == S[0], "ThemeStack.pop_theme on base", "ThemeStack(BASE).pop_theme()", "base popped")
+        except Exception:
+            ok = False
+        ctx.check(ok and len(st._entries) == 1 and st.get("a") == S[0], "ThemeStack.pop_theme on base", "ThemeStack(BASE).pop_theme()", "base popped")
+
+    # ThemeStack used directly (its own default for `inherit`), every push/pop word up to length 5
+    for n in range(0, 6 if ctx.quick else 8):
+        for word in itertools.product("PNO", repeat=n):  # P = push_theme(t) (default inherit), N = push_theme(t, inherit=False), O = pop
+            st = ThemeStack(BASE)
+            spec = Spec(dict(BASE.styles))
+            ok, why = True, ""
+            for k, w in enumerate(word):
+                t = TA if k % 2 == 0 else TB
+                try:
+                    if w == "P":
+                        st.push_theme(t)
+                        spec.frames.append((t.styles, True))
+                    elif w == "N":
+                        st.push_theme(t, inherit=False)
+                        spec.frames.append((t.styles, False))
+                    else:
+                        try:
+                            st.pop_theme()
+                            popped = True
+                        except ThemeStackError:
+                            popped = False
+                        if popped != bool(spec.frames):
+                            ok, why = False, "pop_theme raised ThemeStackError although a pushed theme was open, or popped the base"
+                            break
+                        if spec.frames:
+                            spec.frames.pop()
+                except Exception as e:
+                    ok, why = False, f"unexpected {type(e).__name__}"
+                    break
+                for name in ("a", "b", "c", "bold", "italic", "foo", "Foo", "zzz"):
+                    if st.get(name) != spec.lookup(name):
+                        ok, why = False, f"after {k + 1} steps ThemeStack.get({name!r}) is {st.get(name)}, the newest-defining-theme rule gives {spec.lookup(name)}"
+                        break
+                if not ok:
+                    break
+            ctx.check(ok, "ThemeStack history", "".join(word), why)
 
     # ================================================================ 3. configparser contract, Theme.config, Theme.from_file
     # 3a. str.isspace as the model has it (all code points)
@@ -665,15 +727,36 @@ def run(ctx):
         ctx.case("cfg_isspace", [cp], enc_bool(chr(cp).isspace()))
     ctx.flush()
 
+    # the round trip's domain: the harness predicate is the Lean predicate (safeName / safeValue of Model/ConfigParser.lean)
+    dom_names = SAFE_NAMES + NONASCII_SAFE + UPPER_NAMES + HOSTILE_NAMES + ["a\u00a0", "\u2003a", "a\x85", "x]", "a%b", "a#b", "]", "a;b", "A.b", "z" * 40]
+    chars = ["a", "Z", " ", "=", ":", "#", ";", "[", "]", "\n", "\t", "%", "é", ".", "\x1f", "\u3000"]
+    for _ in range(300 if ctx.quick else 5000):
+        dom_names.append("".join(rng.choice(chars) for _ in range(rng.randint(0, 4))))
+    for n in dom_names:
+        base_ok = name_in_domain(n)
+        ctx.case("cfg_safe_name", [0, enc_str(n)], enc_bool(base_ok), shape=str(base_ok))
+        ctx.case("cfg_safe_name", [1, enc_str(n)], enc_bool(base_ok and n.isascii() and not any("A" <= c <= "Z" for c in n)))
+        v_ok = bool(n) and n == n.strip() and "\n" not in n
+        ctx.case("cfg_safe_value", [0, enc_str(n)], enc_bool(v_ok))
+        ctx.case("cfg_safe_value", [1, enc_str(n)], enc_bool(v_ok and "%" not in n))
+        ctx.case("cfg_strip", [enc_str(n)], enc_str(n.strip()))
+
     one_style = style_space(rng)
     n_cfg = 500 if ctx.quick else 8000
     all_names = SAFE_NAMES * 3 + NONASCII_SAFE + UPPER_NAMES + HOSTILE_NAMES
-    for i in range(n_cfg):
+    # bounded-exhaustive part: every single-entry theme over the name alphabet x {plain, each link}
+    singles = [Theme(), Theme({}, inherit=False)]
+    for n in SAFE_NAMES + NONASCII_SAFE + UPPER_NAMES + HOSTILE_NAMES:
+        singles.append(Theme({n: Style(bold=True)}, inherit=False))
+    for link in ["http://example.org/x", "x;y#z", "=", "http://a:b", "50%", "%%", "%(a)s", "http://x/%20y", "[x]", "#x"]:
+        singles.append(Theme({"a": Style(link=link)}, inherit=False))
+        singles.append(Theme({"a": Style(link=link), "b": Style(color="red")}, inherit=False))
+    singles.append(Theme({"a": Style(bold=True), "A": Style(dim=True)}, inherit=False))
+    singles.append(Theme({"x": Style(bold=True), "[a": Style(link="x]")}, inherit=False))
+    for i in range(len(singles) + n_cfg):
         r = rng.random()
-        if i == 0:
-            theme = Theme()
-        elif i == 1:
-            theme = Theme({}, inherit=False)
+        if i < len(singles):
+            theme = singles[i]
         elif r < 0.55:
             theme = Theme({rng.choice(SAFE_NAMES + NONASCII_SAFE): one_style() for _ in range(rng.randint(0, 5))}, inherit=rng.random() < 0.1)
         else:
@@ -754,7 +837,34 @@ def replay(ctx, case):
 
 
 MANIFEST = {
-    "text": "TODO",
-    "note": "TODO",
+    "text": "Lean 4 theorems (Props/C20.lean; no bound on the number of themes, names, nesting depth or history length). "
+    "Stack: `resolve_spec`/`get_style_spec` - on the ThemeStack representing any list of (theme, inherit) frames over a base, "
+    "Console.get_style(name, default) is: newest frame defining the name, falling through inheriting frames only, else Style.parse "
+    "(StyleSyntaxError -> default / MissingStyle, other errors propagate); `history_refines`/`lookup_after_history` - every history of "
+    "push_theme/pop_theme/raise/`with use_theme(..)` (any nesting, unbalanced pops, exceptions, exceptions out of __exit__) run by the "
+    "repaired code ends on the stack the frame specification computes, with the same outcome; `pop_push_id`; `balanced_restores` "
+    "(+ `_lookups`, `use_theme_restores_on_exception`) - every balanced history, including use_theme bodies aborted by an exception at "
+    "any point, restores entries and the bound `get` exactly, for both variants of ThemeContext.__enter__; `base_not_poppable`, "
+    "`base_survives` - no history removes the base or unbinds `get` from the top; `theme_new_lookup`/`theme_new_error` for Theme(). "
+    "Config: `configparser_contract` - an executable model of configparser (read_file + items('styles'), default parser, both "
+    "variants of optionxform/interpolation) returns exactly the entries Theme.config wrote, for all entry lists with safe names/values; "
+    "`config_roundtrip` over the abstract contract, `config_roundtrip_model`/`_inherit` for the modelled parser; `default_names_safe` "
+    "re-proved by `decide +kernel` on the DEFAULT_STYLES keys translated from /repo on every run. Witnesses by `decide`: "
+    "`old_use_theme_ignores_inherit` (F14), `old_config_percent_breaks`/`_changes_value` (F15), `old_config_lowercases_names`. "
+    "Tie: every history forest with <=3 (quick) / <=4 (thorough) statements over 6 statement kinds with 27 lookups after each statement, "
+    "seeded random histories to depth 4 (1 in 8 on the default console), all push/pop words <=5 (7) directly on ThemeStack, Theme() over "
+    "12 names x 24 definitions, config round trip over single-entry themes (all name classes x links) and random themes, random config "
+    "texts over 35 line shapes, str.isspace on all code points - each compared model-vs-rich and evaluated against a frame-list oracle "
+    "written from the property statement.",
+    "note": "Trusted: Lean kernel; axioms propext/Classical.choice/Quot.sound; translator plug-in harness/gen/default_style_names.py; "
+    "the correspondence harness. Parameters (assumed, exercised per case): styles are opaque ids compared by Style.__eq__ (link ids "
+    "excluded, so `style.copy() if style.link` is the identity); Style.parse and Style.__str__ are tables computed by the real code, "
+    "and the round trip assumes parse(str(s)) == s (C06; styles failing it are filtered and counted); configparser is stdlib - "
+    "its model covers non-indented single-section texts, ASCII names when lower-casing, no %(name)s references (others answer "
+    "`unmodelled`, counted) and is checked against the real parser on every generated text. Round-trip domain (stated, not a "
+    "finding): names non-empty, without '=' ':' newline, strip()-stable, not starting with '#' ';' '[' - other names cannot be "
+    "written in configparser syntax at all. One thread only (the stack is thread-local); dicts held by the stack are assumed not "
+    "to be mutated from outside (ThemeStack aliases theme.styles for the base). Code-variant flags at the top of this file select "
+    "today's behaviour (F14, F15, lower-cased names) until the pending fixes land.",
     "design_ref": "DESIGN.md section 7, C20",
 }
